@@ -50,7 +50,30 @@ def file_sha(path):
 
 
 # ------------------------------------------------------------------------------------- builds
+import contextlib
+import fcntl
+
+
+@contextlib.contextmanager
+def build_lock(name):
+    """checks of different properties may run side by side: the shared builds (coq make, driver)
+    are serialised by an advisory file lock"""
+    os.makedirs(BUILD, exist_ok=True)
+    f = open(os.path.join(BUILD, f".{name}.lock"), "w")
+    try:
+        fcntl.flock(f, fcntl.LOCK_EX)
+        yield
+    finally:
+        fcntl.flock(f, fcntl.LOCK_UN)
+        f.close()
+
+
 def build_coq(log):
+    with build_lock("coq"):
+        return build_coq_locked(log)
+
+
+def build_coq_locked(log):
     """regenerate the source constants, then an incremental full .vo build (no -vos)"""
     sys.path.insert(0, os.path.join(ROOT, "tools"))
     import consts
@@ -112,6 +135,11 @@ def check_pins(prop, log):
 
 
 def build_driver(log):
+    with build_lock("driver"):
+        return build_driver_locked(log)
+
+
+def build_driver_locked(log):
     d = os.path.join(BUILD, "driver")
     os.makedirs(d, exist_ok=True)
     srcs = [os.path.join(COQ, "extracted", "model.mli"), os.path.join(COQ, "extracted", "model.ml"),
@@ -123,10 +151,11 @@ def build_driver(log):
         return True, key
     for s in srcs:
         sh(["cp", s, d])
-    rc, out = sh("ocamlfind ocamlopt -package zarith -linkpkg -w -a model.mli model.ml driver.ml -o driver",
+    rc, out = sh("ocamlfind ocamlopt -package zarith -linkpkg -w -a model.mli model.ml driver.ml -o driver.new",
                  cwd=d, timeout=600)
     log.append(("ocamlopt driver", rc, out[-2000:]))
     if rc == 0:
+        os.replace(os.path.join(d, "driver.new"), exe)     # atomic: a running driver keeps its old image
         open(stamp, "w").write(key)
     return rc == 0, key
 
